@@ -254,8 +254,8 @@ def minimise(scen, case, seed, sig, budget_s=60.0, log=None):
     return best_case, choices, best_res
 
 
-def write_replay(prop, scen_name, case, seed, choices, res, sig):
-    d = os.path.join(VERIF, 'replays')
+def write_replay(prop, scen_name, case, seed, choices, res, sig, outdir=None):
+    d = outdir or os.path.join(VERIF, 'replays')
     os.makedirs(d, exist_ok=True)
     safe = ''.join(c if c.isalnum() or c in '-_.' else '_' for c in sig)[:80]
     path = os.path.join(d, '%s-%s-%d.json' % (prop, safe, seed % 10**10))
@@ -378,7 +378,15 @@ def run_batch(prop, scen_name, tier, base_seed, n_runs, wall_budget, jobs=16, sr
     if survey:
         for sig, ent in sorted(viol_by_sig.items()):
             v = ent['first'][4] if ent['first'] else {}
-            print('SURVEY %-70s runs=%d %s' % (sig, ent['count'], str(v.get('detail'))[:160].replace('\n', ' ')))
+            tag = 'known ' if match_known(known, prop, sig) is not None else ('      ' if sig.startswith(prop + '.')
+                                                                              else 'other ')
+            print('SURVEY %s%-70s runs=%d %s' % (tag, sig, ent['count'],
+                                                 str(v.get('detail'))[:160].replace('\n', ' ')))
+            sd = os.environ.get('VERIF_SURVEY_DIR')
+            if sd and tag == '      ' and ent['first']:
+                # raw (unminimised) case for triage
+                i, seed, case, res, _v = ent['first']
+                write_replay(prop, scen_name, case, seed, None, res, sig, outdir=sd)
         viol_by_sig_all = viol_by_sig
         viol_by_sig = {}
     lines = []
